@@ -437,7 +437,7 @@ PROPS = {
     ),
     "C17": dict(
         theorems=["Bardic.Parser." + t for t in ["strip_comment_suffix", "strip_keeps_escaped", "strip_keeps_floordiv_assign",
-                                                  "strip_noslash", "dedent_uniform"]],
+                                                  "strip_noslash", "dedent_uniform", "contentLine_comment_invisible"]],
         run=run_c17,
         rule="each generated story (parameters, @if/@for nesting, @py blocks, hooks, @join blocks, render/input directives, "
              "block and conditional choices, jumps) is printed once plainly and in 6 (thorough 12) random style vectors over "
@@ -449,14 +449,16 @@ PROPS = {
         level_text="proof: strip_comment_suffix (the kept part never depends on what follows the first unescaped // that is "
                    "not //=), strip_keeps_escaped, strip_keeps_floordiv_assign, strip_noslash (a line without '/' is returned "
                    "unchanged) and dedent_uniform (adding the same blank prefix to every line of a body does not change the "
-                   "dedented body) for all strings; that each of the dozen line classifiers applies the stripper and the "
+                   "dedented body) for all strings; contentLine_comment_invisible (the content tokenizer gives the same tokens "
+                   "for a line with and without a trailing // comment); that each of the dozen line classifiers applies the stripper and the "
                    "legacy/@ heads agree is decided by the style-vector oracle on the real compiler (partial: the line "
                    "classifiers themselves are not modelled)",
     ),
     "C11": dict(
         theorems=["Bardic.Parser." + t for t in ["extractPassageParams_ok", "extractTargetAndArgs_ok", "parsePassageParams_ok",
                                                   "validatePassageName_ok", "scanBrackets_ok", "multiline_ok", "pyNew_ok",
-                                                  "pyOld_consumed", "findClose_bound"]] + [T + "loopPaths_advance"],
+                                                  "pyOld_consumed", "findClose_bound", "parseContentLine_terminates", "contentLine_fuel",
+                                                  "splitExprs_length", "parseTags_length"]] + [T + "loopPaths_advance"],
         run=run_c11,
         rule="(a) line sequences (1-6, thorough 1-8 lines plus continuations) over a vocabulary of ~330 valid and broken forms "
              "of every kind of line (headers, text with braces / inline conditionals, ~ statements with open brackets, "
@@ -467,12 +469,15 @@ PROPS = {
              "conditionals, braces, brackets, parameter lists nested 5 … 1100 deep); (d) @include of a missing file, a cycle, "
              "itself, a broken file, nothing, a directory, through compile_file; each compilation under a per-call timer, "
              "the outcome classified by exception type AND by whether a raise statement of the compiler produced it; "
-             "(e) random inputs to eight parser components against their Lean models; distinct by hash of the text",
+             "(e) random inputs to ten parser components (incl. the content tokenizer parse_content_line and parse_tags) against "
+             "their Lean models; distinct by hash of the text",
         level_text="proof for the modelled components, every partial Python operation written as an explicit failure point: "
                    "extract_passage_params, extract_target_and_args, _split_on_commas + parse_passage_params, "
                    "validate_passage_name (for every Unicode character classification), extract_multiline_expression and both "
                    "Python-block extractors never reach an internal error, use at least one (two) lines and stay inside the "
-                   "text (…_ok, multiline_ok, pyNew_ok, pyOld_consumed); loopPaths_advance — kernel-checked over the table of "
+                   "text (…_ok, multiline_ok, pyNew_ok, pyOld_consumed); parseContentLine_terminates / contentLine_fuel — the "
+                   "recursive content tokenizer (tags, {…} splitting, nested inline conditionals) terminates on every line, its "
+                   "recursion depth bounded by the line's length; loopPaths_advance — kernel-checked over the table of "
                    "all 70 ways to reach the next iteration of the 11 while loops of the compiler, re-extracted by a "
                    "must-analysis on every run: each advances the index. Partial: the remaining parser functions (block "
                    "extractors' bodies, content tokenizer, choice validation) are not modelled — for them the claim rests on "
